@@ -9,7 +9,7 @@ build = sys.argv[1]
 b = lrv.BUILDS[build]
 files, _ = lrv.discover()
 s = lrv.make_scratch("dev-" + build)
-fs = [f for f in files if f["anchor"].split("/")[0] in pkg_dirs_for(b["package"])]
+fs = lrv.files_for_build(files, b, pkg_dirs_for(b["package"]))
 lrv.apply_overlay(s, fs, b["swap"], b.get("edits", ()))
 print(s)
 print("cd %s/src && CARGO_NET_OFFLINE=true %s" % (s, " ".join(lrv.kani_cmd(build, ["HARNESS"], s + "/target", 300))))
